@@ -214,8 +214,8 @@ PROPS['C17'] = {
 
 PROPS['C18'] = {
     'kani': {
-        'quick': [krun(['c18::q::', 'c18::degenerate::'], timeout=900, bounds='real const items for N in {1,3,8} (slice length 3N+2) + degenerate N=0 / ZST / padded / u32 cases; every const fn of the API; witness indices symbolic; run-time call compared with the const item')],
-        'thorough': [krun(['c18::'], timeout=2400, bounds='N in {1,2,3,7,8,16}')],
+        'quick': [krun(['c18::q::', 'c18::degenerate::'], flags=['--features', 'c18'], timeout=900, bounds='real const items for N in {1,3,8} (slice length 3N+2) + degenerate N=0 / ZST / padded / u32 cases; every const fn of the API; witness indices symbolic; run-time call compared with the const item')],
+        'thorough': [krun(['c18::'], flags=['--features', 'c18'], timeout=2400, bounds='N in {1,2,3,7,8,16}')],
     },
     'functions': ['GenericArray::{len,as_slice,as_mut_slice,from_slice,try_from_slice,from_mut_slice,try_from_mut_slice,chunks_from_slice,chunks_from_slice_mut,slice_from_chunks,slice_from_chunks_mut,from_array,into_array,from_chunks,into_chunks,uninit,assume_init,const_default}', 'arr!', 'const_transmute'],
     'bounds': 'K: const items on a small lattice (the compiler evaluates them; the harness compares with run time). M: CTFE MIR bodies for all N / L.',
